@@ -172,10 +172,10 @@ PROPS = {
             "C06_iteration_cells_distinct_repeat", "C06_iteration_cells_distinct_foreach",
             "C06_return_keeps_store", "C06_repeat_scope_exit", "C06_foreach_scope_exit",
             "C06_reachable_states_well_formed", "C06_cell_outlives_scope", "C06_closure_body_identity"]},
-        n_quick=300, n_thorough=3000,
+        n_quick=200, n_thorough=3000,
         gen_timeout=3000,
         release=False,
-        gates=["ok", "identity.sites", "identity.same_position_twins",
+        gates=["ok", "corpus.S-1", "corpus.S-2", "corpus.S-3", "identity.sites", "identity.same_position_twins",
                # nesting and non-local upvalues
                "closure.depth2", "closure.depth3", "closure.depth4", "upvalue.nonlocal2", "upvalue.nonlocal3",
                "closure.returns_closure", "closure.returned_by_closure_kept",
@@ -200,12 +200,12 @@ PROPS = {
                "std.map", "std.filter", "std.any", "std.min_by_key", "std.sorted_by_key", "native.call1",
                "call.late", "closure.called_on_the_spot", "dyncall", "dyncall.surplus_argument",
                # what is captured
-               "capture.param", "shadow.loop_variable", "shadow.param",
+               "capture.param", "shadow.loop_variable", "shadow.param", "capture.shadowing_variable",
                "capture.many2", "capture.many3", "capture.many4", "capture.many5", "capture.many6",
                "capture.many7", "capture.many8",
-               "statement_level_value", "junk_above_captured", "return_in_loop",
+               "statement_level_value", "junk_above_captured", "junk_above_captured_in_loop_body", "return_in_loop",
                "closure.arity0", "closure.arity1", "closure.arity2", "closure.arity3"],
-        rule="random WELL-SCOPED programs (RefScope.well_scoped, re-checked per case in Coq) from a generator dedicated to "
+        rule="the three witness programs of findings/C06 first, then random WELL-SCOPED programs (RefScope.well_scoped, re-checked per case in Coq) from a generator dedicated to "
              "closures (harness/src/c06.rs): a chain of 1-5 functions with 0-4 parameters (main calls the last, each calls "
              "the one below: closures are created at call depth 0-5 in frames with arguments and extra locals), apply "
              "templates that call a callable parameter, twin functions with the same text shape in two modules, up to four "
